@@ -140,3 +140,86 @@ Proof.
     + intros v Ra Rb. rewrite <- (Hres v Ra Rb). reflexivity.
     + intros x []. 
 Qed.
+
+(* ---- containment and overlap answers at range level (C12) ---- *)
+Theorem rr_allows_all_sound lo hi i j lo' hi' i' j' v :
+  let a := RR lo hi i j in let b := RR lo' hi' i' j' in
+  wf_rng a = true -> wf_rng b = true -> regular_r v a = true -> regular_r v b = true ->
+  r_allows_all a b = true -> mem b v = true -> mem a v = true.
+Proof.
+  intros a b Wa Wb Ra Rb H Hb. unfold r_allows_all in H. fold a b in H.
+  apply andb_true_iff in H. destruct H as [H1 H2]. apply negb_true_iff in H1, H2.
+  unfold mem in *. apply andb_true_iff in Hb. destruct Hb as [Ab Bb].
+  destruct (allows_lower_spec b a v Rb Ra) as [_ F1].
+  destruct (allows_higher_spec b a v Wb Wa Rb Ra) as [_ F2].
+  rewrite (F1 H1 Ab), (F2 H2 Bb). reflexivity.
+Qed.
+Theorem rr_allows_any_sound lo hi i j lo' hi' i' j' v :
+  let a := RR lo hi i j in let b := RR lo' hi' i' j' in
+  wf_rng a = true -> wf_rng b = true -> regular_r v a = true -> regular_r v b = true ->
+  r_allows_any a b = false -> mem a v && mem b v = false.
+Proof.
+  intros a b Wa Wb Ra Rb H. unfold r_allows_any in H. fold a b in H.
+  apply negb_false_iff in H. apply not_true_iff_false. intros Hm.
+  unfold mem in Hm. rewrite !andb_true_iff in Hm. destruct Hm as [[Aa Ba] [Ab Bb]].
+  apply orb_true_iff in H. destruct H as [H|H].
+  - destruct (strictly_lower_spec b a v Wb Rb Ra) as [T _]. exact (T H Bb Aa).
+  - unfold is_strictly_higher in H. destruct (strictly_lower_spec a b v Wa Ra Rb) as [T _]. exact (T H Ba Ab).
+Qed.
+(* a range-like allows all of, and any of, itself *)
+Lemma allows_lower_irrefl r : allows_lower r r = false.
+Proof.
+  unfold allows_lower. destruct (rmin r) as [x|]; [|reflexivity].
+  rewrite vlt_irrefl, vgtb_ltb, vlt_irrefl. destruct (imin r); reflexivity.
+Qed.
+Lemma allows_higher_irrefl r : allows_higher r r = false.
+Proof.
+  unfold allows_higher. destruct (allowed_max r) as [x|]; [|reflexivity].
+  rewrite vlt_irrefl, vgtb_ltb, vlt_irrefl. destruct (imax r); reflexivity.
+Qed.
+Theorem rr_allows_all_self lo hi i j : r_allows_all (RR lo hi i j) (RR lo hi i j) = true.
+Proof. unfold r_allows_all. rewrite allows_lower_irrefl, allows_higher_irrefl. reflexivity. Qed.
+
+(* ---- from interval semantics back to the model's [allows] ---- *)
+Lemma r_intersect_shape a b c : r_intersect a b = Ok c -> match c with VUnion _ => False | _ => True end.
+Proof.
+  unfold r_intersect. destruct a as [x|lo hi i j], b as [y|lo' hi' i' j'].
+  - intros [= <-]. destruct (v_allows x y); [exact I|]. destruct (v_allows y x); exact I.
+  - destruct (rr_allows _ x); [intros [= <-]; exact I|]. destruct (min_local_allowed_by _ x); intros [= <-]; exact I.
+  - destruct (rr_allows _ y); [intros [= <-]; exact I|]. destruct (min_local_allowed_by _ y); intros [= <-]; exact I.
+  - destruct (if allows_lower _ _ then _ else _); [intros [= <-]; exact I|].
+    destruct (if allows_lower _ _ then _ else _) as [imn iimn].
+    destruct (if allows_higher _ _ then _ else _) as [imx iimx].
+    destruct imn, imx; try (destruct (oveq _ _)); try (destruct (iimn && iimx)); cbn; intros H; try discriminate;
+      injection H as <-; exact I.
+Qed.
+Lemma regular_incl v l l' : incl l l' -> forallb (regular1 v) l' = true -> forallb (regular1 v) l = true.
+Proof. intros Hi H. rewrite forallb_forall in *. intros x Hx. apply H, Hi, Hx. Qed.
+Lemma wf_incl l l' : incl l l' -> forallb wf l' = true -> forallb wf l = true.
+Proof. intros Hi H. rewrite forallb_forall in *. intros x Hx. apply H, Hi, Hx. Qed.
+Lemma allows_simple c v : match c with VUnion _ => False | _ => True end ->
+  forallb wf (cbounds c) = true -> wf v = true -> forallb (regular1 v) (cbounds c) = true ->
+  allows c v = Ok (vmem c v).
+Proof.
+  destruct c as [|r|l]; intros S W Wv R; [reflexivity| |destruct S].
+  cbn [allows vmem]. unfold cbounds in *. cbn [flatten flat_map] in *. rewrite app_nil_r in *.
+  rewrite (allows_regular r v W Wv R). reflexivity.
+Qed.
+
+Theorem intersect_ranges_exact lo hi i j lo' hi' i' j' :
+  let a := RR lo hi i j in let b := RR lo' hi' i' j' in
+  wf_rng a = true -> wf_rng b = true -> proper a = true -> proper b = true ->
+  exists c, intersect (VOne a) (VOne b) = Ok c /\
+    forall v, wf v = true -> regular_r v a = true -> regular_r v b = true ->
+      allows c v = Ok (r_allows a v && r_allows b v).
+Proof.
+  intros a b Wa Wb Pa Pb.
+  destruct (rr_intersect_exact lo hi i j lo' hi' i' j' Wa Wb Pa Pb) as (c & Hc & Hm & Hi).
+  exists c. split; [exact Hc|]. intros v Wv Ra Rb.
+  assert (Rall : forallb (regular1 v) (rbounds a ++ rbounds b) = true).
+  { rewrite forallb_app. unfold regular_r in Ra, Rb. fold a b. rewrite Ra, Rb. reflexivity. }
+  assert (Wall : forallb wf (rbounds a ++ rbounds b) = true).
+  { rewrite forallb_app. unfold wf_rng in Wa, Wb. rewrite Wa, Wb. reflexivity. }
+  rewrite (allows_simple c v (r_intersect_shape _ _ _ Hc) (wf_incl _ _ Hi Wall) Wv (regular_incl v _ _ Hi Rall)).
+  rewrite (Hm v Ra Rb), (allows_regular a v Wa Wv Ra), (allows_regular b v Wb Wv Rb). reflexivity.
+Qed.
